@@ -455,6 +455,12 @@ func (o *Obligation) BuildQueryX(withModel bool, lite bool, ground bool, sine bo
 			addk(sApp("+", fc.sliceLows[i], sk), kIdx)
 		}
 	}
+	nLocal := len(cands) // candidates that come from the goal's own skolem constants
+	isSkolem := map[string]bool{}
+	for _, sk := range o.Skolems {
+		isSkolem[sk] = true
+	}
+	prio := map[int]bool{}
 	for _, c := range fc.cands[:o.NCands] {
 		// a term created in a block that does not dominate the obligation's block is not defined on every
 		// path to it: skip
@@ -470,9 +476,24 @@ func (o *Obligation) BuildQueryX(withModel bool, lite bool, ground bool, sine bo
 		}
 	}
 	addc("0")
+	if strings.Contains(o.Goal, " 1)") || strings.Contains(o.Goal, " 2)") || strings.Contains(o.Goal, " 3)") {
+		// small literal positions (fixed-size lists spelled out element by element in a contract)
+		addk("1", kIdx)
+		addk("2", kIdx)
+		addk("3", kIdx)
+	}
 	// terms used as indices / keys in the goal itself
 	for _, t := range indexTerms(o.Goal + " " + o.Guard) {
 		addc(t)
+	}
+	// nested quantifiers: all candidates when there are few, otherwise the goal's own terms only
+	nestedCands := cands
+	if len(cands) > 24 {
+		nestedCands = append([]string{}, cands[:nLocal]...)
+		for _, t := range indexTerms(o.Goal + " " + o.Guard) {
+			nestedCands = append(nestedCands, t)
+		}
+		nestedCands = append(nestedCands, "0")
 	}
 	closedSeen := map[string]bool{}
 	var closedExtra []string
@@ -492,7 +513,7 @@ func (o *Obligation) BuildQueryX(withModel bool, lite bool, ground bool, sine bo
 		}
 		for _, q := range f.Quants {
 			for _, c := range append(append([]string{}, q.candsFor(cands, kinds)...), q.Consts...) {
-				inst := strings.Replace(f.Term, q.Forall, q.instantiate(c, cands, 1, ground, kinds), 1)
+				inst := strings.Replace(f.Term, q.Forall, q.instantiateN(c, cands, nestedCands, 1, ground, kinds), 1)
 				if ground {
 					for _, q2 := range f.Quants {
 						if q2.Forall != q.Forall {
@@ -500,6 +521,7 @@ func (o *Obligation) BuildQueryX(withModel bool, lite bool, ground bool, sine bo
 						}
 					}
 				}
+				_ = isSkolem
 				if f.Guard == "true" {
 					emit(fmt.Sprintf("(assert %s)", inst))
 				} else {
@@ -526,6 +548,24 @@ func (o *Obligation) BuildQueryX(withModel bool, lite bool, ground bool, sine bo
 	body = append(body, closedExtra...)
 	if sine {
 		keep := sineSelectD(body, o.Guard+" "+o.Goal, tol, depth)
+		if len(prio) > 0 && len(prio) <= 400 {
+			// close the selection under the symbols of the exempted instances (one more round from their symbols)
+			var extraGoal strings.Builder
+			for i := range body {
+				if prio[i] && !keep[i] {
+					extraGoal.WriteString(body[i])
+					extraGoal.WriteString(" ")
+				}
+			}
+			if extraGoal.Len() > 0 && extraGoal.Len() < 4000000 {
+				keep2 := sineSelectD(body, extraGoal.String(), tol, 1)
+				for i := range keep {
+					if keep2[i] || prio[i] {
+						keep[i] = true
+					}
+				}
+			}
+		}
 		for i, t := range body {
 			if keep[i] {
 				sb.WriteString(t)
